@@ -28,9 +28,10 @@ Proof. split; [vm_compute; reflexivity|vm_compute; discriminate]. Qed.
 From Goom Require Import Gen.LocksMemory Gen.UnpatchCallersRoot Gen.UnpatchCallersProxy.
 Definition under_memory_lock (e : string * string * string) : bool :=
   String.eqb (snd e) "lock:memoryAccessLock" || String.eqb (snd e) "callers:memoryAccessLock".
-Lemma write_sequence_atomic :
+Definition write_sequence_atomic_stmt : Prop :=
   forallb under_memory_lock memory_writes_accesses = true /\
   existsb (fun e => String.eqb (fst (fst e)) "call:mProtectCrossPage" && String.eqb (snd (fst e)) "WriteTo") memory_writes_accesses = true.
+Lemma write_sequence_atomic : write_sequence_atomic_stmt.
 Proof. split; vm_compute; reflexivity. Qed.
 
 (* Guard.Unpatch does not take the patch lock itself: outside package patch it may only be reached where the guard was
